@@ -138,7 +138,10 @@ def main(pid, tier, replay_path=None):
     binp, hlog = router_build.build_harness()
     common.info("%s [%.1fs] model runner and harness built" % (pid, t.s()))
     # 2. proof obligations
-    pr = common.coq_props(pid, extra_files=["Router/GenConform.v"])
+    extra = ["Router/GenConform.v"]
+    if os.path.exists(os.path.join(common.COQ, "Props", "Histories%s.v" % pid)):
+        extra.append("Props/Histories%s.v" % pid)   # the property lifted to whole histories of Realm.run
+    pr = common.coq_props(pid, extra_files=extra)
     obligations, discharged = len(pr["obligations"]), len(pr["discharged"])
     for name, text in sorted(pr["assumptions"].items()):
         trusted.append("Print Assumptions %s: %s" % (name, text))
